@@ -93,7 +93,9 @@ def intRule (min max : Option Num) : Val → R Val
 /-- `NumberField._validate` with `type_cls = float` -/
 def floatRule (E : Env) (min max : Option Num) : Val → R Val
   | .bool _ => .error .value
-  | .int i => let f := intToFlt i; if checkBounds min max (ofFlt f) then .ok (.flt f) else .error .value
+  | .int i =>
+    if intOverflows i then .error .overflow
+    else if checkBounds min max (ofFlt (intToFlt i)) then .ok (.flt (intToFlt i)) else .error .value
   | .flt f => if checkBounds min max (ofFlt f) then .ok (.flt f) else .error .value
   | .str s =>
     match E.parseFloat s with
